@@ -164,9 +164,9 @@ mut("C11", "lexer_memo_key_too_short", "liquid/lex.py",
 
 # ---------------------------------------------------------------- more C01 / C17
 mut("C01", "filtered_left_memo_across_await", "liquid/builtin/expressions/filtered.py",
-    "    async def evaluate_async(self, context: RenderContext) -> object:\n        rv = await self.left.evaluate_async(context)\n        if self.filters:\n            for f in self.filters:\n                rv = await f.evaluate_async(rv, context)\n        return rv\n\n    def children(self) -> list[Expression]:\n        children = [self.left]",
-    "    async def evaluate_async(self, context: RenderContext) -> object:\n        _LAST[id(self)] = await self.left.evaluate_async(context)\n        if self.filters:\n            for f in self.filters:\n                _LAST[id(self)] = await f.evaluate_async(_LAST[id(self)], context)\n        return _LAST.pop(id(self))\n\n    def children(self) -> list[Expression]:\n        children = [self.left]",
-    "value parked in a module-level dict keyed by the node across awaits: only two tasks rendering the SAME template with different data, interleaved inside a filter chain, see each other's value")
+    "    async def evaluate_async(self, left: object, context: RenderContext) -> object:\n        func = context.filter(self.name, token=self.token)\n        positional_args, keyword_args = await self.evaluate_args_async(context)\n",
+    "    async def evaluate_async(self, left: object, context: RenderContext) -> object:\n        func = context.filter(self.name, token=self.token)\n        _LAST[id(self)] = left\n        positional_args, keyword_args = await self.evaluate_args_async(context)\n        left = _LAST.pop(id(self), left)\n",
+    "the left value is parked in a module-level dict keyed by the node while the filter's arguments are awaited: only two tasks rendering the SAME template with different data, one of them suspended inside a filter argument (async drop), see each other's value")
 mut("C01", "filtered_left_memo_across_await__decl", "liquid/builtin/expressions/filtered.py",
     "class FilteredExpression(Expression):", "_LAST: dict = {}\n\n\nclass FilteredExpression(Expression):", "part of the previous mutant")
 mut("C01", "async_include_binds_full_name", "liquid/builtin/tags/include_tag.py",
